@@ -1171,7 +1171,13 @@ where
 			if tip.0 >= e {
 				wallet_lock!(wallet_inst, w);
 				let parent_key_id = w.parent_key_id();
-				tx::cancel_tx(&mut **w, keychain_mask, &parent_key_id, Some(tx.id), None)?;
+				// the list was read in step 2: another thread may have cancelled or confirmed the entry since
+				match tx::cancel_tx(&mut **w, keychain_mask, &parent_key_id, Some(tx.id), None) {
+					Ok(_) => {}
+					Err(Error::TransactionNotCancellable(_))
+					| Err(Error::TransactionDoesntExist(_)) => {}
+					Err(e) => return Err(e),
+				}
 			}
 		}
 	}
